@@ -180,7 +180,23 @@ func checkOperationIdentity(c *Ctx, gen *packages.Package) {
 	}
 	ast.Inspect(fd.Body, func(n ast.Node) bool {
 		rs, ok := n.(*ast.RangeStmt)
-		if !ok || goan.LastSel(rs.X) != "Operations" {
+		if !ok {
+			return true
+		}
+		// the planning loop: over the operations (the map, or its sorted names) and calling MakeOperation
+		if coll, _ := keyRange(gen.TypesInfo, fd.Body, rs); coll == nil || goan.LastSel(coll) != "Operations" {
+			return true
+		}
+		plans := false
+		ast.Inspect(rs.Body, func(m ast.Node) bool {
+			if call, ok := m.(*ast.CallExpr); ok {
+				if fn := goan.Callee(gen.TypesInfo, call); fn != nil && fn.Name() == "MakeOperation" {
+					plans = true
+				}
+			}
+			return true
+		})
+		if !plans {
 			return true
 		}
 		appended := false
